@@ -558,6 +558,12 @@ let pathparts_line l =
   | Some q -> show p ^ " | " ^ show q
   | None -> show p ^ " | none"
 
+(* "none" | <n> -> run_impl's closing line (hex) and the exit status *)
+let summary_line l =
+  let t = String.trim l in
+  let (txt, code) = summary (if t = "none" then None else Some (n_of_int (int_of_string t))) in
+  Printf.sprintf "%s %d" (hex_of_bytes txt) (int_of_n code)
+
 let hash_line l =
   (* hex of the manifest stream -> siphash *)
   "ok " ^ hexnum_of_n (siphash13 (bytes_of_hex l))
@@ -584,7 +590,7 @@ let suites : (string * (string -> string)) list =
     ("showincludes", showinc_line true); ("showincludes_pinned", showinc_line false);
     ("lastline", lastline_line); ("depfiledeps", depfiledeps_line);
     ("taskmsg", taskmsg_line true); ("taskmsg_pinned", taskmsg_line false);
-    ("truncate", truncate_line); ("bar", bar_line); ("fancy", fancy_line); ("lossy", lossy_line); ("task", task_line); ("dumb", dumb_line); ("cli", cli_line); ("fs", fs_line); ("cols", cols_line); ("pathparts", pathparts_line); ("status", status_line);
+    ("truncate", truncate_line); ("bar", bar_line); ("fancy", fancy_line); ("lossy", lossy_line); ("task", task_line); ("dumb", dumb_line); ("cli", cli_line); ("fs", fs_line); ("cols", cols_line); ("summary", summary_line); ("pathparts", pathparts_line); ("status", status_line);
     ("inv", inv_line); ("select", select_line); ("build", build_line);
     ("dbopen", dbopen_line); ("dbwrite", dbwrite_line);
     ("load", load_line); ("world", world_line); ("explain", explain_line); ("siphash", hash_line); ("dedup", dedup_line true); ("dedup_pinned", dedup_line false) ]
